@@ -11,7 +11,8 @@ INFO = {
              'overridden code, message, detail, error_type drawn from markup, quotes, ampersands, braces, format / ashes '
              'template syntax, non-ASCII and control characters, Accept header, default / debug handler / a handler that hands the error back so that the fallback rendering of the framework answers) plus 404s for '
              'marked-up paths / queries / headers / cookies and uncaught exceptions whose message and locals carry a '
-             'marker tag. Non-trivial = a dynamic field contains a character that needs escaping in the negotiated '
+             'marker tag. Complete in every tier: the status matrix (class x raise / return x breaking / non-breaking x 5 Accept x 3 '
+             'handlers) and the field catalogue (65 texts x 3 fields x 4 formats x production / debug handler). Non-trivial = a dynamic field contains a character that needs escaping in the negotiated '
              'format; distinct cases counted.'),
     'assumptions': ['Accept: a supported type\'s quality is that of the most specific matching range; ties, ranges with extra '
                     'parameters, unparsable q-values and malformed ranges make the choice uncertain and every consistent outcome is accepted',
@@ -472,14 +473,40 @@ def run_matrix(ctx):
                         ctx.classify_exc(e, case, 'case')
 
 
+LONG_TEXTS = ['a' * off + '&<zq9lt>' + 'b' * 300 for off in range(249, 262)] + \
+    ['&' * 250 + '<zq9lu>' + 'c' * 300, 'x' * 600 + '<zq9lv>', "'" * 300 + '"><zq9lw>', 'a' * 300 + '<zq9o> ' + 'a' * 300 + '<zq9o>',
+     'line\n' * 120 + '<zq9lx>', 'é' * 260 + '<zq9ly>']
+
+
+def field_catalogue():
+    """complete: every text of the catalogue (and long ones whose special characters sit around the 256th / 512th position) in every
+    field of an error x the four formats x production / debug handler"""
+    out = []
+    for text in NASTY + LONG_TEXTS:
+        for field in ('detail', 'message', 'error_type'):
+            for accept in ('text/html', 'application/json', 'application/xml', 'text/plain'):
+                for debug in (False, True):
+                    case = {'kind': 'http', 'cls': 'BadRequest', 'how': 'raise', 'detail': None, 'message': None, 'error_type': None, 'code': None,
+                            'accept': accept, 'debug': debug, 'method': 'GET', 'preset': None, 'preset_ct': None, 'stack': None, 'reuse': None, 'nb': False}
+                    case[field] = text
+                    out.append(case)
+    return out
+
+
 def shards(tier, seed):
     n = 300 if tier == 'quick' else 60000
-    return [{'n': n, 'matrix': i == 0} for i in range(16)]
+    return [{'n': n, 'matrix': i == 0, 'slice': i} for i in range(16)]
 
 
 def run_shard(spec, ctx):
     if spec.get('matrix'):
         run_matrix(ctx)
+    for case in field_catalogue()[spec.get('slice', 0)::16]:
+        ctx.case(case)
+        try:
+            body(case, ctx)
+        except Exception as e:
+            ctx.classify_exc(e, case, 'case')
     ctx.hyp(strategy(), body, spec['n'], kind='case')
 
 
